@@ -60,6 +60,7 @@ type Scenario struct {
 	CrashPM     uint64 // amnesia crash chance per API call of an FAmnesia node
 	StallPM     uint64
 	EarlyTimer  bool
+	HugePool    int   // clock family: this many transactions sit in every pool from the start (0: off)
 	WOFlipIdent int   // identity+1 of a validator whose watch-only flag is set while it runs (0: none)
 	WOFlipAt    int64 // ... at this instant
 	FastIdent   int  // identity+1 of an amnesia validator whose inbound links are the fastest (0: none)
@@ -713,5 +714,25 @@ func ClockScenario(t *Tape) *Scenario {
 		sc.MaxTPB = sc.TPB * 2
 	}
 	sc.Epoch0 += int64(t.Draw(SScen, 1_000_000_007)) // not aligned to any increment
+	if t.Chance(SScen, 1, 300) {
+		// a very large verified pool (more than 2^16 transactions) at one or two validators:
+		// the proposal must list all of it
+		sc.HugePool = 65536 + int(t.Range(SScen, 0, 3000))
+		n := 1 + int(t.Draw(SScen, 2))
+		sc.NIdent = n
+		vals := make([]int, n)
+		for i := range vals {
+			vals[i] = i
+		}
+		sc.Epochs = []Epoch{{From: 0, Vals: vals}}
+		sc.Fault = make([]FaultKind, n)
+		sc.FlagWO = make([]bool, n)
+		sc.NObs = 0
+		sc.Heights = 2
+		sc.MaxTxPerBlock = sc.HugePool + 10
+		sc.TxRate = 0
+		sc.TxMissing = false
+		sc.MaxEvents = 4000
+	}
 	return sc
 }
